@@ -167,6 +167,13 @@ def reserved_stream(run, tables, variant):
             run.violation({"kind": "broken-correspondence", "stream": "reserved", "model": model, "real": realm,
                            "note": "the exhaustive walk over the word file finds no reserved identifier on the real code"},
                           signature="reserved:model-differs", no_input=True)
+    if run.cov.get("lean_ahead_of_tree") and real:
+        lang, w, mode, ident = real[0]
+        run.violation({"kind": "failing-input", "stream": "reserved", "lang": lang, "word": w, "mode": mode_name(mode),
+                       "identifier": ident,
+                       "note": "Pool.codeIsFixed = true (identifier_not_reserved_status then claims the identifier clause "
+                               "of C05 of the code) but the tree implements the case-sensitive removal"},
+                      signature="identifier:lean-claims-repaired-removal")
     return real
 
 
@@ -400,6 +407,87 @@ def check_request(export, kws, stats=True):
     return rq
 
 
+def expected_site_counts(export):
+    """how many sites of each family `Spec/Scope.sites` must produce, counted here on the JSON export, node by node
+    (independent of the Lean walk): one per name use, per declared identifier, per scope, per type occurrence that the
+    specification names (declared types, type arguments, bounds, signatures - not the recorded `inferred` types)"""
+    tt = export["tt"]
+    c = collections.Counter()
+
+    def bounded(tps):
+        return sum(1 for i in tps if tt[i].get("bound") is not None)
+
+    def f(n):
+        k = n.get("n")
+        if k is None:
+            return
+        if k == "variable":
+            c["var"] += 1
+        elif k == "call":
+            c["call"] += 1
+            c["type"] += len(n["targs"])
+        elif k == "funcref":
+            c["funcref"] += 1
+            c["type"] += n["signature"] is not None
+        elif k == "fieldaccess":
+            c["fieldaccess"] += 1
+        elif k == "new":
+            c["new"] += 1
+            c["type"] += 1
+        elif k == "assign":
+            c["assign"] += 1
+        elif k == "super":
+            c["super"] += 1
+            c["type"] += 1
+        elif k == "block":
+            c["distinct:local"] += 1
+        elif k == "class":
+            c["identifier"] += 1
+            c["distinct:field"] += 1
+            c["distinct:method"] += 1
+            c["distinct:type-parameter"] += 1
+            c["type"] += bounded(n["tparams"])
+        elif k == "func":
+            c["identifier"] += 1
+            c["distinct:parameter"] += 1
+            c["distinct:type-parameter"] += 1
+            c["type"] += bounded(n["tparams"]) + (n["retType"] is not None)
+        elif k == "lambda":
+            c["distinct:parameter"] += 1
+            c["type"] += (n["signature"] is not None) + (n["retType"] is not None)
+        elif k == "var":
+            c["identifier"] += 1
+            c["type"] += n["varType"] is not None
+        elif k in ("field", "param"):
+            c["identifier"] += 1
+            c["type"] += 1
+        elif k in ("bottom", "int", "real"):
+            c["type"] += n["t"] is not None
+        elif k in ("array", "is"):
+            c["type"] += 1
+    walk(export["decls"], f)
+    c["distinct:top-level"] = 1
+    return {k: v for k, v in c.items() if v}
+
+
+def family(kind):
+    if kind.startswith("distinct:"):
+        return kind
+    return kind.split(":")[0]
+
+
+def site_coverage(run, spec, stage, export, kinds):
+    got = collections.Counter()
+    for k, v in kinds.items():
+        got[family(k)] += v
+    want = expected_site_counts(export)
+    if dict(got) != want:
+        diff = {k: (got.get(k, 0), want.get(k, 0)) for k in set(got) | set(want) if got.get(k, 0) != want.get(k, 0)}
+        raise common.HarnessError("Spec/Scope.sites does not enumerate the program: (lean, json) counts differ %s for %s" % (
+            diff, replay_of(spec, stage=stage)))
+    run.cov["site_coverage_programs"] = run.cov.get("site_coverage_programs", 0) + 1
+
+
 def report_rejection(run, spec, stage, ans, tables):
     """closedCheck (verified: closed_sound/closed_complete) rejects a generated program: a failing input"""
     lang = spec["lang"]
@@ -436,7 +524,7 @@ def programs_stream(run, specs, tables, budget_s, label="programs", flush_at=96)
         if not pending:
             return
         answers = common.run_driver([p[4] for p in pending])
-        for (what, spec, x, nbad, _), a in zip(pending, answers):
+        for (what, spec, x, nbad, rq_export), a in zip(pending, answers):
             lang = spec["lang"]
             if "error" in a:
                 raise common.HarnessError("driver: %s on %s of %s" % (a["error"][:300], what, replay_of(spec)))
@@ -447,6 +535,7 @@ def programs_stream(run, specs, tables, budget_s, label="programs", flush_at=96)
                 run.tally("programs_checked", "%s:%s" % (lang, stage))
                 for k, v in (a.get("kinds") or {}).items():
                     kinds[lang][k] += v
+                site_coverage(run, spec, stage, rq_export, a.get("kinds") or {})
                 if a["r"] != "ok":
                     st8["rejected"] += 1
                     run.log("REJECTED %s seed=%s switches=%s depth=%s stage=%s: %s" % (
@@ -588,8 +677,9 @@ def mutants(export):
     e = copy.deepcopy(export)
     n = first_node(e, "call", lambda n: not n["isRefCall"])
     if n is not None:
-        n["args"] = n["args"] + [{"n": "arg", "expr": {"n": "bool", "lit": "true"}, "name": None}] * 40
-        out.append(("forty-more-arguments", e, [], {"arity:function", "arity:method-of", "arity"}))
+        # wrong under every signature (varargs and defaults included): no parameter has this name
+        n["args"] = n["args"] + [{"n": "arg", "expr": {"n": "bool", "lit": "true"}, "name": UNBOUND}]
+        out.append(("unknown-named-argument", e, [], {"arity:function", "arity:method-of", "arity"}))
     return out
 
 
@@ -639,6 +729,7 @@ def variant_stream(run, tables):
             # Lean claims the repaired removal (identifier_not_reserved_status then states the full property) but the
             # tree does not implement it: the reserved stream produces the failing input
             run.broken.append({"obligation": "Pool.codeIsFixed matches the tree", "detail": "lean=fixed tree=asIs"})
+            run.cov["lean_ahead_of_tree"] = True
         else:
             run.assumptions.append("the tree implements the repaired (case-insensitive) remove_reserved_words; switch "
                                    "Heph.Pool.codeIsFixed to true: identifier_not_reserved_status then states that the "
